@@ -1,5 +1,5 @@
 """C03 - no stuck workflow: quiescence implies a resting status."""
-from vt.harness import kernels
+from vt.harness import A5, kernels
 from vt.harness.common import control_slices, history_body, ob
 from vt.monitors import C03Quiescence
 
@@ -21,4 +21,5 @@ def obligations(tier):
     for o in obs:
         if "e2c." in o["id"]:
             o["antecedents"] = ["c03_quiescent"]
+    obs.append(A5.obligation("C03", tier))
     return obs
